@@ -8,7 +8,6 @@ NA = {
  "C01": "Soundness of emitted matches is an invariant over the whole run history of SaseEngine (FxHashMap<String,Arc<Event>> captures, Instant, NFA built at run time); no per-function contract carries it and CBMC cannot carry hash-map lookups here (measured), so Kani on process() would be bounded symbolic testing of the engine, not a contract.",
  "C02": "Completeness/earliest-match against a reference semantics over all streams; same engine state as C01, outside both verifiers.",
  "C04": "Partition independence is an equivalence between two whole-engine executions (hash-partitioned state); not a per-call contract.",
- "C13": "Same code and same measured limits as C12 (chrono arithmetic on symbolic instants, symbolic Vec::with_capacity).",
  "C14": "Float reductions up to rounding; the path that runs on this hardware is AVX2 intrinsics behind is_x86_feature_detected! (unsupported by both verifiers); proving only scalar fallbacks would certify code that does not execute.",
  "C15": "Join correctness is a property of arrival histories over nested hash maps + a binary heap + chrono; outside both verifiers (hash maps measured out of reach).",
  "C16": "Equivalence of whole-engine executions across entry points (async Engine, channels, tokio).",
